@@ -57,7 +57,13 @@ def is_block(kind, fl, code):
 # ----------------------------------------------------------------------------- implementation
 
 class FakeListen:
+    """Listening socket: accept() hands out the queued (socket, address) pairs, then would block."""
+    def __init__(self):
+        self.queue = []
+
     def accept(self):
+        if self.queue:
+            return self.queue.pop(0)
         raise OSError(errno.EAGAIN, "nothing to accept")
 
     def shutdown(self, how):
@@ -77,16 +83,15 @@ def run_server(case):
     tymist = tyming.Tymist()
     tymth = tymist.tymen()
     tls = case["tls"]
-    if tls:
-        sv = serving.ServerTls(context=c09.FakeCtx(), ha=c09.HA, tymth=tymth)
-    else:
-        sv = serving.Server(ha=c09.HA, tymth=tymth)
-    sv.ss = FakeListen()
-    socks, closed = {}, []
     records, wl = [], None
     if case.get("wl"):
         wl = c09.make_wl({"mode": 2, "rxed": True, "txed": True}, records)    # real WireLog, one shared memory buffer
-        sv.wl = wl
+    if tls:
+        sv = serving.ServerTls(context=c09.FakeCtx(), ha=c09.HA, tymth=tymth, bs=16, tymeout=3.5, wl=wl)
+    else:
+        sv = serving.Server(ha=c09.HA, tymth=tymth, bs=16, tymeout=3.5, wl=wl)
+    sv.ss = FakeListen()
+    socks, closed = {}, []
 
     def mk(i):
         sock = c09.FakeSock(False, ca_of(i), c09.HA)
@@ -97,13 +102,41 @@ def run_server(case):
             return serving.RemoterTls(context=c09.FakeCtx(), ha=c09.HA, ca=ca_of(i), cs=sock, bs=16, tymth=tymth, wl=wl)
         return serving.Remoter(ha=c09.HA, ca=ca_of(i), cs=sock, bs=16, tymth=tymth, wl=wl)
 
-    for i in case["ix0"]:
-        r = mk(i)
-        if tls:
-            r.connected = True
-        sv.ixes[ca_of(i)] = r
-    for i in case["cx0"]:
-        sv.cxes[ca_of(i)] = mk(i)
+    config = []
+    if case.get("accept"):
+        # the connections come out of the server's own accept servicing (serviceAccepts / serviceAxes / serviceCxes):
+        # plain ones land in .ixes, TLS ones in .cxes with their handshake pending (do_handshake wants to read)
+        for i in case["ix0"] + case["cx0"]:
+            sock = c09.FakeSock(False, ca_of(i), c09.HA)
+            sock.ident = i
+            sock.on_close = lambda s: closed.append(s.ident)
+            sock.handshake = ("ssl", int(ssl.SSL_ERROR_WANT_READ))
+            socks[i] = sock
+            sv.ss.queue.append((sock, ca_of(i)))
+        sv.serviceConnects()
+        where = sv.cxes if tls else sv.ixes
+        if list(where) != [ca_of(i) for i in case["ix0"] + case["cx0"]] or (tls and sv.ixes):
+            config.append("accepted connections are not where accept servicing should put them")
+        for ca, r in where.items():
+            for name, got, want in (("wl", r.wl, sv.wl), ("bs", r.bs, sv.bs), ("tymeout", r.tymeout, sv.tymeout),
+                                    ("tymer.duration", r.tymer.duration, sv.tymeout), ("ha", r.ha, c09.HA), ("ca", r.ca, ca),
+                                    ("tymth", r.tymth, sv.tymth), ("cs", r.cs, socks[ca[1] - 40000])):
+                if got is not want and got != want:
+                    show = lambda v: v if isinstance(v, (int, float, str, tuple, type(None))) else type(v).__name__
+                    config.append(f"connection {ca[1] - 40000}: .{name} is {show(got)!r}, the server's is {show(want)!r}")
+            if tls:
+                for name in ("context", "version", "certify", "keypath", "certpath", "cafilepath"):
+                    if name == "context":
+                        if r.context is not sv.context:
+                            config.append(f"connection {ca[1] - 40000}: .context is not the server's")
+    else:
+        for i in case["ix0"]:
+            r = mk(i)
+            if tls:
+                r.connected = True
+            sv.ixes[ca_of(i)] = r
+        for i in case["cx0"]:
+            sv.cxes[ca_of(i)] = mk(i)
     ident = {ca_of(i): i for i in socks}
     out = []
     for p in case["passes"]:
@@ -147,6 +180,8 @@ def run_server(case):
         if s.misuse:
             raise AssertionError("fake socket misuse: %s" % s.misuse)
     obs = {"passes": out}
+    if case.get("accept"):
+        obs["config"] = config
     if wl is not None:
         log = []
         for _, b in records:
@@ -358,6 +393,8 @@ def failures(case, obs):
                     out.append(("unmarked", "handshake-remoter", h[1], h[2], f"pending connection {i}: fault {h[1]}:{h[2]} did not abort it"))
         before = dict(now)
         before["_cx"] = list(po["cxes"])
+    for c in obs.get("config", []):
+        out.append(("config", "accept", "-", 0, "accept servicing did not hand the server's configuration down: " + c))
     if "wlog" in obs:
         if any(r[0] == "bad" for r in obs["wlog"]):
             out.append(("wirelog", "wl", "-", 0, "wire log record not of the form Rx/Tx <connection address ca>"))
@@ -387,6 +424,7 @@ def failures(case, obs):
     if not any_raise and not out and len(case["ix0"]) + len(case["cx0"]) > 1:
         for i in case["ix0"] + case["cx0"]:
             sub = {"scene": "server", "tls": case["tls"], "single": case.get("single", False), "wl": case.get("wl", False),
+                   "accept": case.get("accept", False),
                    "ix0": [i] if i in case["ix0"] else [], "cx0": [i] if i in case["cx0"] else [],
                    "passes": [{"tx": [t for t in p.get("tx", []) if t[0] == i], "hs": [h for h in p.get("hs", []) if h[0] == i],
                                "io": [s for s in p.get("io", []) if s[0] == i], "wlop": p.get("wlop")} for p in case["passes"]]}
@@ -534,6 +572,14 @@ def directed():
                 out.append({"scene": "server", "tls": tls, "wl": True, "single": single, "ix0": [1, 2, 3], "cx0": [],
                             "passes": [{"tx": [[1, P1], [2, P1], [3, P1]], "io": [[1, good], [2, bad], [3, good]]},
                                        {"tx": [[3, "ff"]], "io": [[1, good], [2, {"recvs": [["err", "os", errno.ECONNRESET]], "send": ["acc", 1]}], [3, good]]}]})
+        for wlflag in (True, False):
+            ids = [1, 2, 3]
+            out.append({"scene": "server", "tls": tls, "wl": wlflag, "accept": True,
+                        "ix0": [] if tls else ids, "cx0": ids if tls else [],
+                        "passes": [{"hs": [[1, ["done"]], [2, ["done"]], [3, ["err", "os", errno.ECONNRESET]]],
+                                    "io": [[1, good], [2, good], [3, good]]},
+                                   {"tx": [[1, P1], [2, P1]], "io": [[1, good], [2, {"recvs": [["data", "aa"], ["err", "os", errno.ETIMEDOUT]], "send": ["acc", 2]}]]},
+                                   {"tx": [[1, "ff"]], "io": [[1, good], [2, good]]}]})
         for wlop in (["close"], ["reopen", {"rxed": False}], ["reopen", {"txed": False}], ["reopen", {"samed": False, "txed": False}]):
             out.append({"scene": "server", "tls": tls, "wl": True, "ix0": [1, 2], "cx0": [],
                         "passes": [{"tx": [[1, P1], [2, P1]], "io": [[1, good], [2, good]]},
@@ -569,6 +615,8 @@ def gen_server(rng):
     n = rng.choice([1, 2, 3, 4, 5])
     ids = list(range(1, n + 1))
     cx0 = [i for i in ids if tls and rng.random() < 0.3]
+    if tls and rng.random() < 0.4:
+        cx0 = list(ids)
     ix0 = [i for i in ids if i not in cx0]
     dom = [("os", c) for c in DOMAIN_OS if c != errno.EPIPE or rng.random() < 0.5] + ([("ssl", c) for c in DOMAIN_SSL] if tls else [])
     wild = rng.random() < 0.12        # unlisted codes too
@@ -625,6 +673,8 @@ def gen_server(rng):
     case = {"scene": "server", "tls": tls, "ix0": ix0, "cx0": cx0, "passes": passes}
     if rng.random() < 0.2:
         case["single"] = True
+    if (not tls or not ix0) and rng.random() < 0.6:
+        case["accept"] = True        # connections created by the server's own accept servicing
     if rng.random() < 0.5:
         case["wl"] = True
         for p in passes[1:]:
